@@ -157,19 +157,19 @@ def install_ack_wrappers(log: AckLog) -> Batching:
     from ipv8.attestation.identity.database import IdentityDatabase
     from ipv8.attestation.wallet.database import AttestationsDB
 
-    def rows_token(self, public_key, token):  # noqa: ANN001, ANN202
+    def rows_token(self, public_key, token, *_a, **_kw):  # noqa: ANN001, ANN002, ANN003, ANN202
         return "Tokens", [public_key.key_to_bin(), token.previous_token_hash, token.signature, token.content_hash,
                           token.content]
 
-    def rows_metadata(self, public_key, metadata):  # noqa: ANN001, ANN202
+    def rows_metadata(self, public_key, metadata, *_a, **_kw):  # noqa: ANN001, ANN002, ANN003, ANN202
         return "Metadata", [public_key.key_to_bin(), metadata.token_pointer, metadata.signature,
                             metadata.serialized_json_dict]
 
-    def rows_attestation(self, public_key, authority_key, attestation):  # noqa: ANN001, ANN202
+    def rows_attestation(self, public_key, authority_key, attestation, *_a, **_kw):  # noqa: ANN001, ANN002, ANN003, ANN202
         return "Attestations", [public_key.key_to_bin(), authority_key.key_to_bin(), attestation.metadata_pointer,
                                 attestation.signature]
 
-    def rows_blob(self, attestation, attestation_hash, secret_key, id_format):  # noqa: ANN001, ANN202
+    def rows_blob(self, attestation, attestation_hash, secret_key, id_format, *_a, **_kw):  # noqa: ANN001, ANN002, ANN003, ANN202
         return "attestations", [attestation_hash, attestation.blob, secret_key.raw, id_format.encode()]
 
     def wrap(cls, dbname, name, describe):  # noqa: ANN001, ANN202
@@ -289,6 +289,31 @@ def run_session(rundir: str, spec: dict) -> dict:
             if authority is not None:
                 auth = authorities[authority]
                 assert p.add_attestation(auth.pub(), p.create_attestation(cred.metadata, auth))
+        elif kind == "chain":
+            # ("chain", n): n credentials c0 <- c1 <- ... on our pseudonym, created in chain order (cheap inserts)
+            p = need_identity()
+            prev = None
+            for i in range(op[1]):
+                cred = p.create_credential(hashlib.sha3_256(b"c%d" % i).digest(), {"name": "c%d" % i}, prev)
+                assert cred is not None
+                prev = cred.metadata
+                creds["c%d" % i] = (p.tree.elements[prev.token_pointer], prev)
+        elif kind == "badcred":
+            # ("badcred", name, after-name, "badsig"|"wrongptr"): add_credential with a valid chain token and metadata
+            # that is signed by somebody else / points at another token.  add_credential returns None, but "if the
+            # given metadata is invalid, the token is still inserted" - so the token's insert call has returned.
+            from ipv8.attestation.identity.metadata import Metadata
+            from ipv8.attestation.tokentree.token import Token
+            _, name, after, how = op
+            p = need_identity()
+            parent = creds[after][0]
+            token = Token(parent.get_hash(), content_hash=hashlib.sha3_256(name.encode()).digest(), private_key=own)
+            if how == "badsig":
+                md = Metadata(token.get_hash(), json.dumps({"name": name}).encode(), private_key=foreign)
+            else:
+                md = Metadata(parent.get_hash(), json.dumps({"name": name}).encode(), private_key=own)
+            assert p.add_credential(token, md, set()) is None
+            creds[name] = (token, None)
         elif kind == "content":
             # ("content", name, size): a token that carries its content (LONGBLOB column, overflow pages)
             _, name, size = op
@@ -386,10 +411,16 @@ def observe_pseudonym(manager, key, crypto) -> dict:  # noqa: ANN001
     p = manager.get_pseudonym(key)        # reload path: PseudonymManager.__init__
     pk = p.public_key
     out: dict = {"tokens": [], "metadata": [], "attestations": [], "bad": []}
-    for t in p.tree.elements.values():
+    # tree.verify(t) walks from t to the root verifying every signature on the way; every token lies on the path of
+    # some leaf, so verifying the leaves verifies everything (linear instead of quadratic in the chain length)
+    parents = {t.previous_token_hash for t in p.tree.elements.values()}
+    leaves = {h for h in p.tree.elements if h not in parents}
+    for h, t in p.tree.elements.items():
         out["tokens"].append([hx(pk.key_to_bin()), hx(t.previous_token_hash), hx(t.signature), hx(t.content_hash),
                               hx(t.content)])
-        if not p.tree.verify(t):
+        if h != t.get_hash():
+            out["bad"].append("token-index:" + hx(t.content_hash)[:8])
+        if h in leaves and not p.tree.verify(t):
             out["bad"].append("token-path:" + hx(t.content_hash)[:8])
         if t.content is not None and hashlib.sha3_256(t.content).digest() != t.content_hash:
             out["bad"].append("token-content:" + hx(t.content_hash)[:8])
@@ -407,6 +438,10 @@ def observe_pseudonym(manager, key, crypto) -> dict:  # noqa: ANN001
                 out["bad"].append("attestation-pointer:" + hx(att.metadata_pointer)[:8])
             if not att.verify(crypto.key_from_public_bin(authority)):
                 out["bad"].append("attestation-signature:" + hx(att.metadata_pointer)[:8])
+    try:        # what the rebuilt pseudonym is for: disclosing the newest credential(s) together with their token path
+        p.create_disclosure({c.metadata for c in p.credentials if c.metadata.token_pointer in leaves}, set())
+    except Exception as e:  # noqa: BLE001
+        out["bad"].append(f"disclosure-{type(e).__name__}:" + str(e)[:16])
     out["dangling_metadata"] = sorted(hx(c.metadata.token_pointer)[:8] for c in p.credentials
                                       if c.metadata.token_pointer not in p.tree.elements)
     return out
